@@ -84,6 +84,15 @@ def Ast.isNeg : Ast → Bool
   | .neg _ => true
   | _ => false
 
+def attrNames : Ast → List String
+  | .cons n _ _ r => n :: attrNames r
+  | _ => []
+
+/-- `{|n1, n2|` read off the first row (one token: the grammar has no `C*` between the names) -/
+def relHeading : Ast → String
+  | .cons _ _ (.coll .tup attrs) _ => "{|" ++ ", ".intercalate (attrNames attrs) ++ "|"
+  | _ => "{"
+
 def sepBy (sep : String) : List (List String) → List String
   | [] => []
   | [x] => x
@@ -106,6 +115,7 @@ Sub-terms are printed through `wrap` in a context that requires at least their o
 def node (full : Bool) : Ast → Bool → List String
   | .num n, _ => [toString n]
   | .str cs, _ => [strSrc cs]
+  | .bytes bs, _ => ["<<" ++ ", ".intercalate (bs.map toString) ++ ">>"]
   | .tt, _ => ["true"]
   | .ff, _ => ["false"]
   | .ident x, _ => [x]
@@ -135,6 +145,7 @@ def node (full : Bool) : Ast → Bool → List String
   | .coll .arr items, _ => ["["] ++ sepBy "," (entries full .arr false items) ++ ["]"]
   | .coll .tup items, _ => ["("] ++ sepBy "," (entries full .tup false items) ++ [")"]
   | .coll .dict items, _ => ["{"] ++ sepBy "," (entries full .dict false items) ++ ["}"]
+  | .coll .rel items, _ => [relHeading items] ++ sepBy (noC ++ ",") (relRows full items) ++ ["}"]
   | .paren e, _ => ["("] ++ node full e true ++ [")"]
   | .nil, _ => []
   | .cons _ _ v _, _ => T[v, 0, true]
@@ -142,9 +153,15 @@ def entries (full : Bool) (k : Coll) (isCond : Bool) : Ast → List (List String
   | .cons n key v rest =>
     (match k with
      | .tup => [n, ":"] ++ T[v, 0, true]
+     | .rel => T[v, 0, true]
      | .dict =>
        (if isCond && key == .ident "_" then ["_"] else T[key, 0, true]) ++ [":"] ++ T[v, 0, true]
      | _ => T[v, 0, true]) :: entries full k isCond rest
+  | _ => []
+/-- the rows of a relation literal: the cells of each row in heading order -/
+def relRows (full : Bool) : Ast → List (List String)
+  | .cons _ _ (.coll .tup attrs) rest => (["("] ++ sepBy "," (entries full .set false attrs) ++ [")"]) :: relRows full rest
+  | .cons _ _ v rest => (["("] ++ T[v, 0, true] ++ [")"]) :: relRows full rest
   | _ => []
 end
 
